@@ -113,7 +113,7 @@ pub fn generate_join<T: JoinInput<Chain = ActionExprChain, Handler = Handler>>(
 ) -> TokenStream {
     let default_futures_crate_path = parse_quote! { ::futures };
 
-    JoinOutput::new(
+    let output = JoinOutput::new(
         join.branches(),
         join.handler(),
         if let Some(futures_crate_path) = join.futures_crate_path() {
@@ -127,7 +127,12 @@ pub fn generate_join<T: JoinInput<Chain = ActionExprChain, Handler = Handler>>(
         join.transpose_results_option(),
         join.lazy_branches_option(),
         config,
-    )
-    .unwrap()
-    .into_token_stream()
+    );
+
+    match output {
+        Ok(output) => output.into_token_stream(),
+        // A join which doesn't fit the macro (for ex. `then` handler of `try_join!`) is the caller's mistake:
+        // report it as a compile error instead of a panic of the macro.
+        Err(message) => quote::quote! { ::std::compile_error!(#message) },
+    }
 }
